@@ -40,7 +40,9 @@ func (h *RefreshFunc) Final(ctx *sqlite.AggregateContext) {
 		ctx.ResultError(fmt.Errorf("table not found: %s", fCtx.tableName))
 		return
 	}
-	if vt.Tree.Root.IsDirty() {
+	// a read-only handle is "dirty" whenever it merged several versions in memory; only a
+	// writable one can hold uncommitted writes
+	if !vt.S3Options.ReadOnly && vt.Tree.Root.IsDirty() {
 		ctx.ResultError(fmt.Errorf("table has uncommitted changes: %s", fCtx.tableName))
 		return
 	}
